@@ -12,7 +12,11 @@ use crate::{
 };
 use tracing::{debug, trace, warn};
 
-use instant::{Duration, Instant};
+#[cfg(feature = "verif-hooks")]
+use crate::verif::clock::Instant;
+use instant::Duration;
+#[cfg(not(feature = "verif-hooks"))]
+use instant::Instant;
 use std::collections::vec_deque::Drain;
 use std::collections::VecDeque;
 use std::collections::{BTreeMap, HashMap};
